@@ -650,9 +650,11 @@ class TapeRecorder(object):
                 if not self._should_intercept:
                     return func(*args, **kwargs)
 
-                # If same alias (function) is invoked more than once we want to track each output invocation
-                self._invoke_counter[alias] += 1
-                invocation_number = self._invoke_counter[alias]
+                # If same alias (function) is invoked more than once we want to track each output invocation, the number is
+                # taken in one step as the same alias may be invoked from a few threads of the operation at the same time
+                with self._recording_state_lock:
+                    self._invoke_counter[alias] += 1
+                    invocation_number = self._invoke_counter[alias]
 
                 # Both in recording and playback mode we record what is sent to the output
                 self._record_output(alias, invocation_number, args if static_function else args[1:], kwargs,
